@@ -130,6 +130,7 @@ def main():
     sources = collections.Counter()
     deadline_hit = 0
     extra = {}
+    anchor_lines = {}
     for p, out, log in procs:
         if not os.path.exists(out):
             continue
@@ -145,6 +146,10 @@ def main():
                 continue
             if k == "deadline":
                 deadline_hit += 1
+                continue
+            if k == "anchors":
+                for fn, ls in r.get("lines", {}).items():
+                    anchor_lines.setdefault(fn, set()).update(ls)
                 continue
             if k != "case":
                 continue
@@ -220,6 +225,12 @@ def main():
     )
     for ek, ev in extra.items():
         cov[ek] = dict(ev)
+    try:
+        from vf import anchors
+        cov["anchor_coverage"] = anchors.anchor_report(prop, anchor_lines)
+        cov["model_lines_executed"] = {fn: len(ls) for fn, ls in sorted(anchor_lines.items())}
+    except Exception as e:  # evidence nicety only
+        cov["anchor_coverage_error"] = repr(e)
     ev = dict(property_id=prop, tier=tier, seed=seed, level=meta.LEVEL.get(prop, "exploration"), coverage=cov,
               assumptions=meta.ASSUMPTIONS.get(prop, []) + meta.COMMON_ASSUMPTIONS,
               wall_s=round(wall, 2), violations=len(unknown))
